@@ -343,7 +343,7 @@ static void f_episode(prng_t* g, int ep, size_t cls, int nops, int attack) {
       if (f_nfreed < FMAX) f_freed[f_nfreed++] = ix;
       printf("F op %d %d remote_free %ld = 0 ", ep, strong, ix); print_errs(); dump_obs();
     }
-    else if (r < 68 && fpage->capacity < fpage->reserved && (SECURE_BUILD || (fpage->free == NULL && fpage->local_free == NULL))) {
+    else if (r < 68 && fpage->capacity < fpage->reserved && fpage->capacity < 400 && (SECURE_BUILD || (fpage->free == NULL && fpage->local_free == NULL))) {
       size_t c0 = fpage->capacity;
       mi_page_extend_free(heap, fpage, heap->tld);
       size_t n = fpage->capacity - c0;
